@@ -68,6 +68,11 @@ pub fn check_fill(c: &FillCase) -> CheckResult {
     o.class(classify_xf(&c.xf));
     o.class(c.src.kind());
     o.class_if(c.path.has_curves(), "curves");
+    if let SrcSpec::Image { xf: ixf, .. } = &c.src {
+        let m = ti.then(&to_transform(ixf));
+        let not_transl = |x: &Xf| !(x[0] == 1.0 && x[1] == 0.0 && x[2] == 0.0 && x[3] == 1.0);
+        o.class_if(m.m11 == 1.0 && m.m12 == 0.0 && m.m21 == 0.0 && m.m22 == 1.0 && m.m31.fract() == 0.0 && m.m32.fract() == 0.0 && not_transl(&c.xf) && not_transl(ixf), "image:linear-parts-cancel-to-integer-translation");
+    }
     Ok(o)
 }
 
@@ -76,9 +81,29 @@ fn fill_strategy(ctx: &Ctx) -> BoxedStrategy<FillCase> {
     (4i32..=16, 4i32..=16)
         .prop_flat_map(move |(w, h)| {
             let ext = w.max(h) as f32;
-            (Just((w, h)), init_pixels(w, h), xf_invertible(5.0), prop_oneof![poly_path(ext), curvy_path(ext)], any_src(&ctx, ext), opts_any())
+            let cancel = (0u8..6, prop::sample::select(vec![2.0f32, 4.0, 0.5, -1.0, -2.0]), 0u8..4, (-4i32..=4, -4i32..=4), (-6i32..=6, -6i32..=6));
+            (Just((w, h)), init_pixels(w, h), xf_invertible(5.0), prop_oneof![poly_path(ext), curvy_path(ext)], any_src(&ctx, ext), opts_any(), cancel)
         })
-        .prop_map(|((w, h), init, xf, path, src, opts)| FillCase { w, h, init, xf, path, src, opts })
+        .prop_map(|((w, h), init, mut xf, path, mut src, opts, (sel, k, quarter, (tx, ty), (sx, sy)))| {
+            // one image case in six: the linear part of the current transform is exactly undone by the image's own
+            // transform (a "@2x image on a 2x display", or two equal quarter turns), with whole-number translations,
+            // so that device-to-image space is a pure integer translation although neither matrix is one
+            if sel == 0 {
+                if let SrcSpec::Image { xf: ixf, .. } = &mut src {
+                    let lin: [f32; 4] = match quarter {
+                        0 => [k, 0.0, 0.0, k],
+                        1 => [0.0, 1.0, -1.0, 0.0],
+                        2 => [0.0, -k, k, 0.0],
+                        _ => [k, 0.0, 0.0, k],
+                    };
+                    let m = if lin[0] != 0.0 { lin[0].abs() } else { lin[1].abs().max(lin[2].abs()) };
+                    // translations that are whole multiples of the scale keep the inverse's translation integral
+                    xf = [lin[0], lin[1], lin[2], lin[3], tx as f32 * m.max(1.0), ty as f32 * m.max(1.0)];
+                    *ixf = [lin[0], lin[1], lin[2], lin[3], sx as f32, sy as f32];
+                }
+            }
+            FillCase { w, h, init, xf, path, src, opts }
+        })
         .boxed()
 }
 
@@ -383,7 +408,7 @@ pub fn property(ctx: &Ctx) -> Property {
             part("device", 30_000, 500_000, device_strategy, check_device),
             part("restore", 30_000, 400_000, move || restore_strategy(&c3), check_restore),
         ],
-        min_class_fraction: vec![("fill", "src:image", 0.1), ("fill", "xf:general", 0.05), ("fill", "xf:rotation", 0.05), ("stroke", "dashed", 0.1), ("stroke", "curved-input", 0.25), ("restore", "pop_layer", 0.3)],
+        min_class_fraction: vec![("fill", "src:image", 0.1), ("fill", "image:linear-parts-cancel-to-integer-translation", 0.01), ("fill", "xf:general", 0.05), ("fill", "xf:rotation", 0.05), ("stroke", "dashed", 0.1), ("stroke", "curved-input", 0.25), ("restore", "pop_layer", 0.3)],
         panic_is_violation: false,
     }
 }
